@@ -300,12 +300,13 @@ func runTraceSeq(k *vf.Case) {
 		}
 	}
 	if shutdownLive {
-		t2 := tp.Tracer("after")
-		_, sp := t2.Start(context.Background(), "x")
-		if sp.IsRecording() {
-			fail("tracer-after-shutdown-records", "", "")
+		for _, scope := range []string{"after", "a", "b", ""} { // a new scope and the scopes asked for before Shutdown
+			_, sp := tp.Tracer(scope).Start(context.Background(), "x")
+			if sp.IsRecording() {
+				fail("tracer-after-shutdown-records", "", fmt.Sprintf("scope %q", scope))
+			}
+			sp.End()
 		}
-		sp.End()
 		k.C.Count("trace_programs_shut_down", 1)
 	}
 	k.C.Count("trace_seq_programs", 1)
@@ -381,6 +382,7 @@ func runTraceStock(k *vf.Case) {
 	firstKind := ""
 	var wg sync.WaitGroup
 	var callLog []string
+	providerShutDown := false // some TracerProvider.Shutdown call carried a context that was not cancelled
 	for i := 0; i < nShut; i++ {
 		ctx, cancel, kind := ctxOf(r)
 		if concurrent && kind == "cancelled" {
@@ -391,6 +393,9 @@ func runTraceStock(k *vf.Case) {
 			firstKind = kind
 		}
 		via := r.Intn(3)
+		if via == 0 && kind != "cancelled" {
+			providerShutDown = true
+		}
 		callLog = append(callLog, fmt.Sprintf("%s(%s)", []string{"tp.Shutdown", "sp.Shutdown", "tp.Unregister"}[via], kind))
 		do := func() {
 			defer cancel()
@@ -420,8 +425,13 @@ func runTraceStock(k *vf.Case) {
 	outLen := buf.Len()
 	exports := rec.exports.Load()
 	span()
-	_, s2 := tp.Tracer("later").Start(context.Background(), "y")
-	s2.End()
+	for _, scope := range []string{"later", "stock"} { // a new scope and the one asked for before Shutdown
+		_, s2 := tp.Tracer(scope).Start(context.Background(), "y")
+		if s2.IsRecording() && providerShutDown {
+			fail("tracer-after-shutdown-records", "", fmt.Sprintf("scope %q", scope))
+		}
+		s2.End()
+	}
 	if err := tp.ForceFlush(context.Background()); err != nil {
 		fail("forceflush-after-shutdown-error", "", err.Error())
 	}
@@ -549,6 +559,12 @@ func runMetric(k *vf.Case) {
 	if t := fmt.Sprintf("%T", c2); !strings.Contains(t, "noop") {
 		fail("meter-after-shutdown-not-noop", "", t)
 	}
+	// the scope and instrument asked for before Shutdown
+	c3, _ := mp.Meter("m").Int64Counter("c")
+	c3.Add(ctx, 1)
+	if t := fmt.Sprintf("%T", c3); !strings.Contains(t, "noop") {
+		fail("meter-after-shutdown-not-noop", "same scope", t)
+	}
 	if manual != nil {
 		var rm metricdata.ResourceMetrics
 		if err := manual.Collect(ctx, &rm); !errors.Is(err, sdkmetric.ErrReaderShutdown) {
@@ -662,6 +678,11 @@ func runLog(k *vf.Case) {
 	if l2.Enabled(ctx, log.EnabledParameters{}) {
 		fail("logger-after-shutdown-not-noop", "", "")
 	}
+	l3 := lp.Logger("l") // the scope asked for before Shutdown
+	emit(l3)
+	if l3.Enabled(ctx, log.EnabledParameters{}) || !strings.Contains(fmt.Sprintf("%T", l3), "noop") {
+		fail("logger-after-shutdown-not-noop", "same scope", fmt.Sprintf("%T", l3))
+	}
 	if err := lp.ForceFlush(ctx); err != nil {
 		fail("forceflush-after-shutdown-error", "", err.Error())
 	}
@@ -719,7 +740,8 @@ func runTraceConcurrent(k *vf.Case) {
 	}
 	var spans []spanRec
 	withShutdown := r.Chance(1, 3)
-	var shutdownCall atomic.Uint64
+	var shutdownCall, shutdownRet atomic.Uint64
+	pre := tp.Tracer("w") // obtained before any Shutdown: stays a real tracer afterwards
 	for g := 0; g < G; g++ {
 		seed := r.U64()
 		wg.Add(1)
@@ -744,7 +766,20 @@ func runTraceConcurrent(k *vf.Case) {
 					cr := &churnRec{p: p}
 					tp.RegisterSpanProcessor(p)
 					cr.regRet = vf.Tick()
-					runtime.Gosched()
+					if gr.Bool() {
+						// a span through the tracer obtained before Shutdown, inside the registration window
+						st := vf.Tick()
+						_, sp := pre.Start(context.Background(), "in-window")
+						sr := spanRec{id: sp.SpanContext().SpanID(), start: st}
+						sr.call = vf.Tick()
+						sp.End()
+						sr.ret = vf.Tick()
+						mu.Lock()
+						spans = append(spans, sr)
+						mu.Unlock()
+					} else {
+						runtime.Gosched()
+					}
 					cr.unregCall = vf.Tick()
 					tp.UnregisterSpanProcessor(p)
 					mu.Lock()
@@ -758,9 +793,13 @@ func runTraceConcurrent(k *vf.Case) {
 					if withShutdown && g == 0 && i > 15 {
 						shutdownCall.CompareAndSwap(0, vf.Tick())
 						tp.Shutdown(context.Background())
+						shutdownRet.CompareAndSwap(0, vf.Tick())
 					}
 				default:
 					tr := tp.Tracer("w")
+					if gr.Bool() {
+						tr = pre
+					}
 					st := vf.Tick()
 					_, sp := tr.Start(context.Background(), "s")
 					sr := spanRec{id: sp.SpanContext().SpanID(), start: st}
@@ -790,6 +829,28 @@ func runTraceConcurrent(k *vf.Case) {
 		k.Violate("panic", strings.SplitN(p, "\n", 2)[0], p, nil)
 	}
 	sc := shutdownCall.Load()
+	// nothing is delivered any more once Shutdown has returned: a span started afterwards reaches no processor
+	if sret := shutdownRet.Load(); sret != 0 {
+		for _, s := range spans {
+			if s.start < sret {
+				continue
+			}
+			k.C.Count("spans_started_after_shutdown_returned", 1)
+			seenBy := ""
+			if base.count(s.id) > 0 {
+				seenBy = "the permanent processor"
+			}
+			for _, c := range churns {
+				if c.p.count(s.id) > 0 {
+					seenBy = "processor " + c.p.name
+				}
+			}
+			if seenBy != "" {
+				k.Violate("delivered-after-shutdown", "concurrent", fmt.Sprintf("a span started after TracerProvider.Shutdown had returned was delivered to %s (G=%d)", seenBy, G), nil)
+				break
+			}
+		}
+	}
 	// the permanently registered processor sees every span that ended before any Shutdown was called
 	for _, s := range spans {
 		if sc != 0 && s.ret > sc {
